@@ -1,0 +1,11 @@
+//go:build verif
+
+package gc
+
+import "context"
+
+// RunOnce performs exactly one garbage-collection pass of collector (the body
+// of one RunGCLoop iteration). Verification harness only.
+func RunOnce(ctx context.Context, collector PartGarbageCollector) error {
+	return collector.(*partGC).runGCWithContext(ctx)
+}
